@@ -80,6 +80,7 @@ pub struct Shape {
     pub set_reassigned_between_uses: bool,
     pub alias_used: bool,
     pub redef_after_undef: bool,
+    pub directive_in_other_segment: bool,
     pub variant: &'static str,
 }
 
@@ -89,6 +90,28 @@ pub struct Built {
     pub no_alias: Vec<Ln>,
     pub shape: Shape,
     pub expect_fail: bool,
+}
+
+/// .set / .def / .undef also take effect while the data or the EEPROM segment is current.
+fn seg_wrap(bits: u32) -> Option<Seg> {
+    match (bits >> 24) % 6 {
+        1 => Some(Seg::Data),
+        2 => Some(Seg::Eeprom),
+        _ => None,
+    }
+}
+fn open_wrap(w: Option<Seg>, prog: &mut Vec<Ln>, na: &mut Vec<Ln>, shape: &mut Shape) {
+    if let Some(s) = w {
+        shape.directive_in_other_segment = true;
+        prog.push(Ln::st(St::Seg(s)));
+        na.push(Ln::st(St::Seg(s)));
+    }
+}
+fn close_wrap(w: Option<Seg>, prog: &mut Vec<Ln>, na: &mut Vec<Ln>) {
+    if w.is_some() {
+        prog.push(Ln::st(St::Seg(Seg::Code)));
+        na.push(Ln::st(St::Seg(Seg::Code)));
+    }
 }
 
 pub fn build(r: &RawSyms) -> Built {
@@ -155,7 +178,18 @@ pub fn build(r: &RawSyms) -> Built {
                 push(prog, na, Ln::st(St::Equ(spelled.to_string(), e)));
             }
             4 => {
-                let e = if set_assigns[i] > 0 && v % 2 == 0 { E::bin(BinOp::Add, E::sym(spelled), E::Num(1 + v % 7)) } else { E::Num(v % 4000 + set_assigns[i] as i64) };
+                // value: a literal, the previous value of the same variable, or another .set variable
+                // that already has a value at this point (evaluated now: later reassignments of that
+                // other variable must not change this one)
+                let others: Vec<usize> = (0..set_assigns.len()).filter(|j| *j != i && r.syms[*j].kind == 4 && set_assigns[*j] > 0).collect();
+                let e = if set_assigns[i] > 0 && v % 3 == 0 {
+                    E::bin(BinOp::Add, E::sym(spelled), E::Num(1 + v % 7))
+                } else if !others.is_empty() && v % 3 == 1 {
+                    let j = others[(v as usize / 3) % others.len()];
+                    E::bin(BinOp::Add, E::sym(&recase(&name(j), (v % 4) as u8, (v as u32).wrapping_mul(40503))), E::Num(1 + v % 5))
+                } else {
+                    E::Num(v % 4000 + set_assigns[i] as i64)
+                };
                 push(prog, na, Ln::st(St::Set(spelled.to_string(), e)));
             }
             _ => {
@@ -212,7 +246,11 @@ pub fn build(r: &RawSyms) -> Built {
                 used[i] = true;
             }
             (4, State::Fresh) => {
-                def_line[i] = Some(define(i, &mut prog, &mut na, &sp, &mut reg_of, &mut next_reg, &set_assigns));
+                let wrap = seg_wrap(st.bits);
+                open_wrap(wrap, &mut prog, &mut na, &mut shape);
+                let at = define(i, &mut prog, &mut na, &sp, &mut reg_of, &mut next_reg, &set_assigns);
+                def_line[i] = Some(at);
+                close_wrap(wrap, &mut prog, &mut na);
                 set_assigns[i] += 1;
                 state[i] = State::Defined;
             }
@@ -221,7 +259,10 @@ pub fn build(r: &RawSyms) -> Built {
                     if set_uses_since_assign[i] > 0 {
                         shape.set_reassigned_between_uses = true;
                     }
+                    let wrap = seg_wrap(st.bits);
+                    open_wrap(wrap, &mut prog, &mut na, &mut shape);
                     define(i, &mut prog, &mut na, &sp, &mut reg_of, &mut next_reg, &set_assigns);
+                    close_wrap(wrap, &mut prog, &mut na);
                     set_assigns[i] += 1;
                     set_uses_since_assign[i] = 0;
                 } else {
@@ -236,7 +277,10 @@ pub fn build(r: &RawSyms) -> Built {
                 if state[i] == State::Undefined {
                     shape.redef_after_undef = true;
                 }
+                let wrap = seg_wrap(st.bits);
+                open_wrap(wrap, &mut prog, &mut na, &mut shape);
                 let at = define(i, &mut prog, &mut na, &sp, &mut reg_of, &mut next_reg, &set_assigns);
+                close_wrap(wrap, &mut prog, &mut na);
                 if def_line[i].is_none() {
                     def_line[i] = Some(at);
                 }
@@ -244,7 +288,10 @@ pub fn build(r: &RawSyms) -> Built {
             }
             (_, State::Defined) => {
                 if st.action % 4 == 0 {
+                    let wrap = seg_wrap(st.bits);
+                    open_wrap(wrap, &mut prog, &mut na, &mut shape);
                     push(&mut prog, &mut na, Ln::st(St::Undef(sp.clone())));
+                    close_wrap(wrap, &mut prog, &mut na);
                     state[i] = State::Undefined;
                 } else {
                     let (a, b) = use_line(kind, st.action / 4, &sp, reg_of[i]);
@@ -292,9 +339,22 @@ pub fn build(r: &RawSyms) -> Built {
             }
         }
         Variant::DuplicateLabel(sel) => {
-            if let Some(i) = pick(*sel, &|i| r.syms[i].kind == 0 && state[i] == State::Defined) {
+            if let Some(i) = pick(*sel, &|i| r.syms[i].kind <= 2 && state[i] == State::Defined) {
                 let sp = recase(&name(i), (*sel % 3) as u8, 0x5555_5555);
-                push(&mut prog, &mut na, Ln::with_label(&sp, St::Ins("nop".into(), vec![])));
+                // the second definition sits in the code, data or EEPROM segment, whatever the first one did
+                match (*sel / 3) % 3 {
+                    0 => push(&mut prog, &mut na, Ln::with_label(&sp, St::Ins("nop".into(), vec![]))),
+                    1 => {
+                        push(&mut prog, &mut na, Ln::st(St::Seg(Seg::Data)));
+                        push(&mut prog, &mut na, Ln::with_label(&sp, St::Byte(E::Num(1))));
+                        push(&mut prog, &mut na, Ln::st(St::Seg(Seg::Code)));
+                    }
+                    _ => {
+                        push(&mut prog, &mut na, Ln::st(St::Seg(Seg::Eeprom)));
+                        push(&mut prog, &mut na, Ln::with_label(&sp, St::Data(DKind::Db, vec![DItem::Ex(E::Num(1))])));
+                        push(&mut prog, &mut na, Ln::st(St::Seg(Seg::Code)));
+                    }
+                }
                 expect_fail = true;
                 shape.variant = "duplicate-label";
             }
@@ -341,6 +401,7 @@ pub fn test(r: &RawSyms, ev: &mut Ev, opts: &ModelOpts) -> Result<(), Violation>
         ("set-reassigned-between-uses", b.shape.set_reassigned_between_uses),
         ("alias-used", b.shape.alias_used),
         ("alias-redefined-after-undef", b.shape.redef_after_undef),
+        ("set-def-undef-while-dseg-or-eseg-is-current", b.shape.directive_in_other_segment),
     ] {
         if on {
             ev.class(c);
@@ -403,7 +464,7 @@ pub fn run(ctx: &Ctx) -> Result<Ev, String> {
         let k = total.classes.keys().find(|k| k.starts_with("harness-inconsistent")).cloned().unwrap_or_default();
         return Err(format!("C10 builder and model disagree in {} of {} cases, e.g. {}", inconsistent, total.evaluations, k));
     }
-    for required in ["definition-and-use-differ-in-case", "forward-reference", "set-reassigned-between-uses", "alias-used", "alias-redefined-after-undef", "must-fail:deleted-definition", "must-fail:duplicate-label", "must-fail:alias-after-undef-or-never-defined", "must-fail:set-used-before-first-assignment"] {
+    for required in ["definition-and-use-differ-in-case", "forward-reference", "set-reassigned-between-uses", "alias-used", "alias-redefined-after-undef", "set-def-undef-while-dseg-or-eseg-is-current", "must-fail:deleted-definition", "must-fail:duplicate-label", "must-fail:alias-after-undef-or-never-defined", "must-fail:set-used-before-first-assignment"] {
         if !total.has_violation() && total.classes.get(required).copied().unwrap_or(0) == 0 {
             return Err(format!("generator degenerate: class {} never produced", required));
         }
